@@ -145,6 +145,10 @@ def oracle(c, o):
         return f"implementation raised {o['error']}: {o.get('msg')}"
     if o.get('skip'):
         return None
+    if o.get('pool') is not None:
+        pv = [x for x in o['pool'] if x is not None]
+        if len(pv) >= 1 and max(pv) - min(pv) < 1e-9 and c['method'] not in ('cosine', 'cosine_cov'):
+            return None      # the pooled RDM is constant: correlation-type and rank similarities to it are undefined (0/0), no claim
     a = stack(c)
     method = c['method']
     rs = np.random.RandomState(c['seed'])
